@@ -39,9 +39,19 @@ fn parse_value<'a>(src: &mut &'a [u8]) -> io::Result<&'a BStr> {
 }
 
 fn parse_string<'a>(src: &mut &'a [u8]) -> io::Result<&'a BStr> {
-    let Some(i) = src.iter().position(|c| *c == DOUBLE_QUOTES) else {
-        return Err(io::Error::from(io::ErrorKind::InvalidData));
-    };
+    const BACKSLASH: u8 = b'\\';
+
+    // The closing quote is the first one that is not escaped.
+    let mut i = 0;
+
+    loop {
+        match src.get(i) {
+            Some(&DOUBLE_QUOTES) => break,
+            Some(&BACKSLASH) => i += 2,
+            Some(_) => i += 1,
+            None => return Err(io::Error::from(io::ErrorKind::InvalidData)),
+        }
+    }
 
     let (buf, rest) = src.split_at(i);
     *src = &rest[1..];
